@@ -178,8 +178,9 @@ def unit_carries(unit_id, pid, group):
 # oracle's failure implies the property's statement fails (reason in the comment). Anything else is printed as a NOTE.
 IMPLIES = {
     # ascending key order of the string form / of every value handed out rests on the collection's invariant
-    'C03': {('qualmap', 'C11.sorted'), ('qualmap', 'C11.dup')},
-    'C04': {('qualmap', 'C11.sorted'), ('qualmap', 'C11.dup'), ('qualmap', 'C11.get')},      # + "each retrievable by its key"
+    # (the order a caller SEES is the order the iterators hand out, from either end: C11.iter)
+    'C03': {('qualmap', 'C11.sorted'), ('qualmap', 'C11.dup'), ('qualmap', 'C11.iter')},
+    'C04': {('qualmap', 'C11.sorted'), ('qualmap', 'C11.dup'), ('qualmap', 'C11.get'), ('qualmap', 'C11.iter')},      # + "each retrievable by its key"
     # "the type's name rule applied", "its own rule is satisfied", build succeeds, other fields as set -- through the builder
     'C09': {('pkgrules', 'C08.name'), ('pkgrules', 'C08.builder'), ('pkgrules', 'C08.maven'), ('pkgrules', 'C08.frame')},
     # "whatever the hook writes is what the PURL reports and prints ... empty-valued qualifiers are removed, a checksum is canonicalised"
